@@ -486,6 +486,9 @@ func (x *Exec) frameObligations(st *State, c *Contract, fr *Frame) {
 		if cur.S == init.S {
 			continue
 		}
+		if gd := x.cs.Ghosts[strings.TrimPrefix(k, "ghost|")]; strings.HasPrefix(k, "ghost|") && gd != nil && ghostIsLocal(gd) {
+			continue
+		}
 		var goal Tm
 		if strings.HasPrefix(k, "ghost|") {
 			goal = eq(cur, init)
